@@ -159,3 +159,43 @@ func VerifC07_FanOutEnvelope() { verifTopicPumpFanOut() }
 // one piece or one per read (shared with C09).
 func VerifC07_PublishBodyExact()      { verifrt.Atomic(verifC09PubFraming) }
 func VerifC07_MultiPublishBodyExact() { verifrt.Atomic(verifC09Mpub) }
+
+// Two deliveries at the same time (two connections, each with its own delivery pump; the encode
+// buffers come from one shared pool): each connection receives exactly its own message frame,
+// byte for byte, also when one pump is descheduled inside its socket write while the other
+// encodes (a buffer handed back to the pool before its bytes are on the wire would be reused and
+// overwritten).
+func VerifC07_ConcurrentDeliveriesKeepTheirBytes() {
+	var st *verifChan
+	var clA, clB *clientV2
+	var mA, mB *Message
+	verifrt.Atomic(func() {
+		verifConcreteIDs, verifIDSeq = true, 0
+		st = verifNewChan(verifOpts(), "ch")
+		clA = st.addClient(1)
+		clB = st.addClient(2)
+		st.conns[0].yieldOnWrite = true
+		clA.Writer = bufio.NewWriterSize(st.conns[0], 16)
+		clB.Writer = bufio.NewWriterSize(st.conns[1], 16)
+		mA = verifMsg("a", 0)
+		mA.Body = verifrt.BytesN("bodyA", 4)
+		mB = verifMsg("b", 0)
+		mB.Body = verifrt.BytesN("bodyB", 4)
+	})
+	p := &protocolV2{nsqd: st.n}
+	verifrt.Go("pump-a", func() { p.SendMessage(clA, mA) })
+	verifrt.Go("pump-b", func() { p.SendMessage(clB, mB) })
+	verifrt.Join()
+	for i, cl := range []*clientV2{clA, clB} {
+		cl.writeLock.Lock()
+		cl.Flush()
+		cl.writeLock.Unlock()
+		m := []*Message{mA, mB}[i]
+		var enc bytes.Buffer
+		m.WriteTo(&enc)
+		want := append(verifBE32(uint32(4+enc.Len())), verifBE32(uint32(frameTypeMessage))...)
+		want = append(want, enc.Bytes()...)
+		verifrt.Assert(bytes.Equal(st.conns[i].out.data, want), "each-connection-receives-exactly-its-own-message-frame")
+	}
+	verifrt.Reach("two-deliveries-done", len(st.conns[0].out.data) > 20 && len(st.conns[1].out.data) > 20)
+}
